@@ -23,12 +23,14 @@ class C13(Prop):
     thorough_runs = 150000
 
     def families(self, tier):
-        return [("history", 1)]
+        return [("history", 4), ("two-engines", 1)]
 
     def expected_counters(self, tier):
         return ["probe.discovery-first-message", "probe.engine-id-learned", "probe.boots-changed", "probe.time-changed", "probe.given-engine-first-message", "probe.stamp-checked", "env.restart", "env.jump", "agent.report.notInTimeWindows", "probe.not-adopted-after-skip"]
 
     def gen(self, rng, family, tier):
+        if family == "two-engines":
+            return v3common.two_engine_plan(rng, tier, [l for l in gen.SEC_LEVELS if l != "noauth"])
         return v3common.history_plan(rng, tier, gen.SEC_LEVELS)
 
     def check(self, run):
